@@ -6,30 +6,35 @@
 package dns
 
 //@ func unpackUint8 [C01 C02]
+//@   ensures only: err != nil ==> off + 1 > len(msg) [C01]
 //@   requires 0 <= off
 //@   ensures ok:   err == nil ==> off1 == off + 1 && off1 <= len(msg)
 //@   ensures fail: err != nil ==> off1 == len(msg)
 //@   ensures val:  err == nil ==> i == msg[off]
 
 //@ func unpackUint16 [C01 C02]
+//@   ensures only: err != nil ==> off + 2 > len(msg) [C01]
 //@   requires 0 <= off
 //@   ensures ok:   err == nil ==> off1 == off + 2 && off1 <= len(msg)
 //@   ensures fail: err != nil ==> off1 == len(msg)
 //@   ensures val:  err == nil ==> i == msg[off]*256 + msg[off+1]
 
 //@ func unpackUint32 [C01 C02]
+//@   ensures only: err != nil ==> off + 4 > len(msg) [C01]
 //@   requires 0 <= off
 //@   ensures ok:   err == nil ==> off1 == off + 4 && off1 <= len(msg)
 //@   ensures fail: err != nil ==> off1 == len(msg)
 //@   ensures val:  err == nil ==> i == msg[off]*16777216 + msg[off+1]*65536 + msg[off+2]*256 + msg[off+3]
 
 //@ func unpackUint48 [C01 C02]
+//@   ensures only: err != nil ==> off + 6 > len(msg) [C01]
 //@   requires 0 <= off
 //@   ensures ok:   err == nil ==> off1 == off + 6 && off1 <= len(msg)
 //@   ensures fail: err != nil ==> off1 == len(msg)
 //@   ensures val:  err == nil ==> i == msg[off]*1099511627776 + msg[off+1]*4294967296 + msg[off+2]*16777216 + msg[off+3]*65536 + msg[off+4]*256 + msg[off+5]
 
 //@ func unpackUint64 [C01 C02]
+//@   ensures only: err != nil ==> off + 8 > len(msg) [C01]
 //@   requires 0 <= off
 //@   ensures ok:   err == nil ==> off1 == off + 8 && off1 <= len(msg)
 //@   ensures fail: err != nil ==> off1 == len(msg)
@@ -40,12 +45,14 @@ package dns
 //@   fresh
 
 //@ func unpackDataA [C01 C02 C16]
+//@   ensures only: ret2 != nil ==> off + 4 > len(msg) [C01]
 //@   requires 0 <= off
 //@   ensures ok:   ret2 == nil ==> ret1 == off + 4 && ret1 <= len(msg) && len(ret0) == 4
 //@   ensures fail: ret2 != nil ==> ret1 == len(msg)
 //@   ensures fresh: fresh(ret0)
 
 //@ func unpackDataAAAA [C01 C02 C16]
+//@   ensures only: ret2 != nil ==> off + 16 > len(msg) [C01]
 //@   requires 0 <= off
 //@   ensures ok:   ret2 == nil ==> ret1 == off + 16 && ret1 <= len(msg) && len(ret0) == 16
 //@   ensures fail: ret2 != nil ==> ret1 == len(msg)
@@ -81,6 +88,7 @@ package dns
 //@   loop 1 decreases lenmsg - off
 
 //@ func unpackString [C01 C02]
+//@   ensures only: ret2 != nil ==> off + 1 > len(msg) || off + 1 + msg[off] > len(msg) [C01]
 //@   requires 0 <= off
 //@   ensures ok:   ret2 == nil ==> off < ret1 && ret1 <= len(msg) && ret1 == off + 1 + msg[off]
 //@   ensures fail: ret2 != nil ==> off <= ret1
@@ -103,21 +111,25 @@ package dns
 //@ func toBase64 [C02]
 
 //@ func unpackStringBase32 [C01 C02]
+//@   ensures only: ret2 != nil ==> end > len(msg) [C01]
 //@   requires 0 <= off && off <= end
 //@   ensures ok:   ret2 == nil ==> ret1 == end && end <= len(msg)
 //@   ensures fail: ret2 != nil ==> ret1 == len(msg)
 
 //@ func unpackStringBase64 [C01 C02]
+//@   ensures only: ret2 != nil ==> end > len(msg) [C01]
 //@   requires 0 <= off && off <= end
 //@   ensures ok:   ret2 == nil ==> ret1 == end && end <= len(msg)
 //@   ensures fail: ret2 != nil ==> ret1 == len(msg)
 
 //@ func unpackStringHex [C01 C02]
+//@   ensures only: ret2 != nil ==> end > len(msg) [C01]
 //@   requires 0 <= off && off <= end
 //@   ensures ok:   ret2 == nil ==> ret1 == end && end <= len(msg)
 //@   ensures fail: ret2 != nil ==> ret1 == len(msg)
 
 //@ func unpackStringAny [C01 C02]
+//@   ensures only: ret2 != nil ==> end > len(msg) [C01]
 //@   requires 0 <= off && off <= end
 //@   ensures ok:   ret2 == nil ==> ret1 == end && end <= len(msg)
 //@   ensures fail: ret2 != nil ==> ret1 == len(msg)
@@ -153,6 +165,10 @@ package dns
 //@   ensures fail: ret3 != nil ==> ret2 == len(msg)
 
 //@ func unpackDataAplPrefix [C01 C02]
+//@   assert at "unrecognized APL address family" e1: family != 1 && family != 2 [C01]
+//@   assert at "APL prefix too long" e2: (family == 1 && prefix > 32) || (family == 2 && prefix > 128) [C01]
+//@   assert at "APL length too long" e3: (family == 1 && nlen % 128 > 4) || (family == 2 && nlen % 128 > 16) [C01]
+//@   assert at "overflow unpacking APL address" e4: off + nlen % 128 > len(msg) [C01]
 //@   requires 0 <= off
 //@   ensures ok:   ret2 == nil ==> off < ret1 && ret1 <= len(msg)
 //@   ensures fail: ret2 != nil ==> ret1 == len(msg)
@@ -177,6 +193,8 @@ package dns
 //@ func makeSVCBKeyValue [C01 C02]
 
 //@ func unpackDataOpt [C01 C02]
+//@   assert at "overflow unpacking opt@1" e1: off + 4 > len(msg) [C01]
+//@   assert at "overflow unpacking opt@2" e2: off + optlen > len(msg) [C01]
 //@   requires 0 <= off
 //@   ensures ok:   ret2 == nil ==> off <= ret1 && (off <= len(msg) ==> ret1 <= len(msg))
 //@   ensures fail: ret2 != nil ==> ret1 == len(msg)
